@@ -4,7 +4,7 @@
 # demonstration fails with it and passes without it), stores it under /verif/seeded/<property>/ and runs the
 # property's check against it.
 set -u
-p=$1; tier=${2:-quick}; budget=${3:-40}
+p=$1; prop=${p:0:3}; tier=${2:-quick}; budget=${3:-40}   # p may carry a round suffix (C02b): the property is its first three characters
 wt=/tmp/seed-$p; sd=$wt/_seed
 [ -f $sd/patch.diff ] || { echo "no patch in $sd"; exit 2; }
 cd $wt || exit 2
@@ -27,6 +27,6 @@ mkdir -p /verif/seeded/$p
 cp $sd/patch.diff /verif/seeded/$p/patch.diff
 for f in $sd/*; do case "$(basename $f)" in patch.diff|demo|*.o|*.log|FOREIGN*|foreign*) ;; *) [ -f "$f" ] && [ $(stat -c %s "$f") -lt 200000 ] && cp "$f" /verif/seeded/$p/ ;; esac; done
 # 4. our check against it
-out=$(/verif/selftest/mutant.sh $sd/patch.diff $p $tier $budget 2>&1)
+out=$(/verif/selftest/mutant.sh $sd/patch.diff $prop $tier $budget 2>&1)
 echo "$out"
 echo "SUMMARY $p ctest_rc=$ct demo_with=$with_fail/3 demo_without=$wo_fail/3 check=$(echo "$out" | grep -o 'rc=[0-9]*' | tail -1)"
